@@ -58,7 +58,39 @@ Proof.
   - apply Z.ltb_ge in Neg. unfold parse_int. cbn [app Z.eqb].
     destruct (N.eqb_spec c 45) as [->|N1]; [lia|]. destruct (N.eqb_spec c 43) as [->|N2]; [lia|]. rewrite PU. f_equal. lia.
 Qed.
+(* the most significant digit of a positive number is not 0 (when the fuel suffices) *)
+Lemma pos_digits_head : forall f n acc, (1 <= f)%nat -> 0 < n < 10 ^ Z.of_nat f -> exists c r, pos_digits f n acc = c :: r /\ c <> 48%N.
+Proof.
+  induction f as [|f IH]; intros n acc F H; [lia|]. cbn [pos_digits]. destruct (n <? 10) eqn:E.
+  - apply Z.ltb_lt in E. exists (Z.to_N (48 + n mod 10)), acc. split; [reflexivity|]. rewrite Z.mod_small by lia. lia.
+  - apply Z.ltb_ge in E. destruct f as [|f]; [simpl in H; lia|]. rewrite Nat2Z.inj_succ, Z.pow_succ_r in H by lia.
+    apply IH; [lia|]. split; [apply Z.div_str_pos; lia|apply Z.div_lt_upper_bound; lia].
+Qed.
+(* base 0 reads the printed form back too: no prefix, and a leading 0 only for zero itself *)
+Theorem int_print_parse_base0 n : parse_int (str_of_int n) 0 = Some n.
+Proof.
+  assert (P0 : forall m, 0 <= m -> parse_unsigned0 (pos_digits (S (Z.to_nat (Z.log2 m))) m []) = Some m).
+  { intros m Hm. destruct (pos_digits_spec (S (Z.to_nat (Z.log2 m))) m [] ltac:(lia)) as (ds & E & NE & Fd & Pd). { split; [lia|apply fuel_enough; lia]. }
+    rewrite E, app_nil_r. destruct ds as [|c ds]; [congruence|]. inversion Fd as [|? ? Hc Hds]; subst. unfold is_digit in Hc.
+    assert (NP : forall b, has_prefix b (c :: ds) = false).
+    { intros b. unfold has_prefix. destruct ds as [|c2 [|c3 r]]; auto.
+      destruct (N.eqb_spec c 48) as [->|]; [|reflexivity]. cbn [andb]. inversion Hds as [|? ? Hc2 _]; subst. unfold is_digit in Hc2. unfold prefix_letter.
+      replace ((65 <=? c2) && (c2 <=? 90))%N with false by (symmetry; apply andb_false_iff; left; apply N.leb_gt; lia).
+      replace (N.eqb c2 120) with false by (symmetry; apply N.eqb_neq; lia). replace (N.eqb c2 111) with false by (symmetry; apply N.eqb_neq; lia).
+      replace (N.eqb c2 98) with false by (symmetry; apply N.eqb_neq; lia). rewrite !andb_false_r. reflexivity. }
+    unfold parse_unsigned0. rewrite !NP. rewrite scan_digits by (auto; left; discriminate). rewrite (Pd 0).
+    replace (0 * 10 ^ Z.of_nat (length (c :: ds)) + m) with m by lia.
+    destruct (Z.eq_dec m 0) as [->|NZ]; [rewrite andb_false_r; reflexivity|].
+    destruct (pos_digits_head (S (Z.to_nat (Z.log2 m))) m [] ltac:(lia)) as (c' & r' & E' & Nc). { split; [lia|apply fuel_enough; lia]. }
+    rewrite E, app_nil_r in E'. inversion E'; subst c' r'. replace (N.eqb c 48) with false by (symmetry; apply N.eqb_neq; exact Nc). reflexivity. }
+  unfold str_of_int. destruct (n <? 0) eqn:Neg.
+  - apply Z.ltb_lt in Neg. unfold parse_int. cbn [N.eqb Pos.eqb Z.eqb]. rewrite P0 by lia. f_equal. lia.
+  - apply Z.ltb_ge in Neg. replace (Z.abs n) with n by lia. specialize (P0 n Neg).
+    destruct (pos_digits_spec (S (Z.to_nat (Z.log2 n))) n [] ltac:(lia)) as (ds & E & NE & Fd & _). { split; [lia|apply fuel_enough; lia]. }
+    rewrite E, app_nil_r in *. destruct ds as [|c ds]; [congruence|]. inversion Fd as [|? ? Hc _]; subst. unfold is_digit in Hc.
+    unfold parse_int. cbn [Z.eqb]. destruct (N.eqb_spec c 45) as [->|N1]; [lia|]. destruct (N.eqb_spec c 43) as [->|N2]; [lia|]. exact P0.
+Qed.
 (* printing is injective: different integers print differently *)
 Corollary int_print_injective a b : str_of_int a = str_of_int b -> a = b.
 Proof. intros H. pose proof (int_print_parse a) as A. rewrite H, int_print_parse in A. congruence. Qed.
-Print Assumptions int_print_parse.
+Print Assumptions int_print_parse. Print Assumptions int_print_parse_base0.
